@@ -1,64 +1,101 @@
 ---------------------------- MODULE Tofu ----------------------------
-(* Trust-on-first-use as the client applies it: histories of fetches, uploads, redirect hops
-   and trust-store operations against hosts whose certificates may change (C03).
-   A client call is atomic here; its internal order is ClientConn's business (C11).     *)
+(* Trust-on-first-use as the client applies it (client/session.py + security/tofu.py): histories of fetches,
+   uploads, redirected fetches and trust-store operations against hosts whose certificates may change (C03),
+   with what each peer received (C11) and the pin check of every redirect hop (C16).
+   A client call is atomic here; its internal order is ClientConn's business.
+
+   One client object lives through the whole history (so a cache kept across calls would show).        *)
 EXTENDS Naturals, Sequences, FiniteSets, TLC
-CONSTANTS HP,            \* host:port pairs
-          Certs,         \* readable certificates (fingerprints)
+CONSTANTS HP,            \* host:port pairs (strings "host:port")
+          Certs,         \* readable certificates
           MaxOps,
-          DevUnreadableSkipsCheck,  \* current code: a certificate that cannot be parsed disables the check
+          DevUnreadableSkipsCheck,  \* deviation: a certificate that cannot be parsed disables the check
           DevUploadSkipsVerify      \* example of a one-entry-point regression (must be caught)
 None == "none"
 Bad == "unreadable"          \* what a host presents when its certificate cannot be parsed
-VARIABLES pins, presents, tofuOn, nops, last
-vars == <<pins, presents, tofuOn, nops, last>>
-\* last = [op, h, ok, err, pinsBefore] : the most recent client call
-Idle == [op |-> "none", h |-> None, ok |-> FALSE, err |-> "", before |-> [x \in HP |-> None], shown |-> None]
+VARIABLES pins, presents, tofuOn, nops, last, act
+vars == <<pins, presents, tofuOn, nops, last, act>>
+View == <<pins, presents, tofuOn, nops, last>>
+\* last = the most recent client call: [op, h, ok, err, before: pins before the failing/succeeding connection,
+\*        shown: what that host presented, got: set of hosts that received request bytes during the call]
+Idle == [op |-> "none", h |-> None, ok |-> FALSE, err |-> "", before |-> [x \in HP |-> None], shown |-> None, got |-> {}]
 Init == /\ pins = [h \in HP |-> None] /\ presents \in [HP -> Certs \cup {Bad}]
-        /\ tofuOn \in BOOLEAN /\ nops = 0 /\ last = Idle
+        /\ tofuOn \in BOOLEAN /\ nops = 0 /\ last = Idle /\ act = <<"Init">>
 Step == nops < MaxOps /\ nops' = nops + 1
 
-\* one connection to h by entry point ep ("get" | "upload"): returns <<ok, err, pins'>>
+\* one connection to h by entry point ep ("get" | "upload"): <<ok, err, pins', request bytes left the client>>
 Connect(ep, h, p) ==
   LET c == presents[h] IN
-  IF ~tofuOn \/ (ep = "upload" /\ DevUploadSkipsVerify) THEN <<TRUE, "", p>>
-  ELSE IF c = Bad THEN IF DevUnreadableSkipsCheck THEN <<TRUE, "", p>> ELSE <<FALSE, "unreadable", p>>
-  ELSE IF p[h] = None THEN <<TRUE, "", [p EXCEPT ![h] = c]>>          \* first use: pin what was presented
-  ELSE IF p[h] = c THEN <<TRUE, "", p>>
-  ELSE <<FALSE, "changed", p>>
+  IF ~tofuOn \/ (ep = "upload" /\ DevUploadSkipsVerify) THEN <<TRUE, "", p, TRUE>>
+  ELSE IF c = Bad THEN IF DevUnreadableSkipsCheck THEN <<TRUE, "", p, TRUE>> ELSE <<FALSE, "unreadable", p, FALSE>>
+  ELSE IF p[h] = None THEN <<TRUE, "", [p EXCEPT ![h] = c], TRUE>>          \* first use: pin what was presented
+  ELSE IF p[h] = c THEN <<TRUE, "", p, TRUE>>
+  ELSE <<FALSE, "changed", p, FALSE>>
 
 Call(ep, h) == /\ Step
                /\ LET r == Connect(ep, h, pins) IN
                   /\ pins' = r[3]
-                  /\ last' = [op |-> ep, h |-> h, ok |-> r[1], err |-> r[2], before |-> pins, shown |-> presents[h]]
+                  /\ last' = [op |-> ep, h |-> h, ok |-> r[1], err |-> r[2], before |-> pins, shown |-> presents[h],
+                              got |-> IF r[4] THEN {h} ELSE {}]
+               /\ act' = <<"Call", ep, h>>
                /\ UNCHANGED <<presents, tofuOn>>
+\* the same, but the peer drops the connection after the request without answering: the call fails, yet the
+\* certificate was verified (and pinned on first use) when the connection was made
+CallDropped(ep, h) ==
+  /\ Step
+  /\ LET r == Connect(ep, h, pins) IN
+     /\ pins' = r[3]
+     /\ last' = [op |-> ep, h |-> h, ok |-> FALSE, err |-> IF r[1] THEN "dropped" ELSE r[2], before |-> pins,
+                 shown |-> presents[h], got |-> IF r[4] THEN {h} ELSE {}]
+  /\ act' = <<"CallDropped", ep, h>>
+  /\ UNCHANGED <<presents, tofuOn>>
 \* a fetch of h1 that is redirected to h2: two connections, each checked; stops at the first failure
 Redirected(h1, h2) ==
-  /\ Step
+  /\ Step /\ h1 # h2
   /\ LET r1 == Connect("get", h1, pins) IN
      IF ~r1[1] THEN /\ pins' = r1[3]
-                    /\ last' = [op |-> "get", h |-> h1, ok |-> FALSE, err |-> r1[2], before |-> pins, shown |-> presents[h1]]
+                    /\ last' = [op |-> "get", h |-> h1, ok |-> FALSE, err |-> r1[2], before |-> pins, shown |-> presents[h1], got |-> {}]
      ELSE LET r2 == Connect("get", h2, r1[3]) IN
           /\ pins' = r2[3]
-          /\ last' = [op |-> "hop", h |-> h2, ok |-> r2[1], err |-> r2[2], before |-> r1[3], shown |-> presents[h2]]
+          /\ last' = [op |-> "hop", h |-> h2, ok |-> r2[1], err |-> r2[2], before |-> r1[3], shown |-> presents[h2],
+                      got |-> {h1} \cup (IF r2[4] THEN {h2} ELSE {})]
+  /\ act' = <<"Redirected", h1, h2>>
   /\ UNCHANGED <<presents, tofuOn>>
-Rotate(h, c) == /\ Step /\ presents[h] # c /\ presents' = [presents EXCEPT ![h] = c] /\ last' = Idle /\ UNCHANGED <<pins, tofuOn>>
-Trust(h, c)  == /\ Step /\ pins' = [pins EXCEPT ![h] = c] /\ last' = Idle /\ UNCHANGED <<presents, tofuOn>>
-Revoke(h)    == /\ Step /\ pins[h] # None /\ pins' = [pins EXCEPT ![h] = None] /\ last' = Idle /\ UNCHANGED <<presents, tofuOn>>
-Clear        == /\ Step /\ pins' = [h \in HP |-> None] /\ last' = Idle /\ UNCHANGED <<presents, tofuOn>>
+Rotate(h, c) == /\ Step /\ presents[h] # c /\ presents' = [presents EXCEPT ![h] = c] /\ last' = Idle
+                /\ act' = <<"Rotate", h, c>> /\ UNCHANGED <<pins, tofuOn>>
+Trust(h, c)  == /\ Step /\ tofuOn /\ pins' = [pins EXCEPT ![h] = c] /\ last' = Idle
+                /\ act' = <<"Trust", h, c>> /\ UNCHANGED <<presents, tofuOn>>
+Revoke(h)    == /\ Step /\ tofuOn /\ pins[h] # None /\ pins' = [pins EXCEPT ![h] = None] /\ last' = Idle
+                /\ act' = <<"Revoke", h>> /\ UNCHANGED <<presents, tofuOn>>
+Clear        == /\ Step /\ tofuOn /\ pins' = [h \in HP |-> None] /\ last' = Idle
+                /\ act' = <<"Clear">> /\ UNCHANGED <<presents, tofuOn>>
+\* import of a file with the single entry (h, c); conflicts are skipped (no callback)
+ImportMerge(h, c)   == /\ Step /\ tofuOn /\ pins' = (IF pins[h] = None THEN [pins EXCEPT ![h] = c] ELSE pins) /\ last' = Idle
+                       /\ act' = <<"ImportMerge", h, c>> /\ UNCHANGED <<presents, tofuOn>>
+ImportReplace(h, c) == /\ Step /\ tofuOn /\ pins' = [x \in HP |-> IF x = h THEN c ELSE None] /\ last' = Idle
+                       /\ act' = <<"ImportReplace", h, c>> /\ UNCHANGED <<presents, tofuOn>>
 Next == \/ \E ep \in {"get", "upload"}, h \in HP : Call(ep, h)
+        \/ \E ep \in {"get", "upload"}, h \in HP : CallDropped(ep, h)
         \/ \E h1 \in HP, h2 \in HP : Redirected(h1, h2)
         \/ \E h \in HP, c \in Certs \cup {Bad} : Rotate(h, c)
         \/ \E h \in HP, c \in Certs : Trust(h, c)
         \/ \E h \in HP : Revoke(h)
         \/ Clear
+        \/ \E h \in HP, c \in Certs : ImportMerge(h, c)
+        \/ \E h \in HP, c \in Certs : ImportReplace(h, c)
 Spec == Init /\ [][Next]_vars
 \* ---- properties (C03) ----
 Called == last.op # "none" /\ tofuOn
 PinRespected == (Called /\ last.ok) => (last.shown # Bad /\ last.before[last.h] \in {None, last.shown})
 ChangedFails == (Called /\ last.shown # Bad /\ last.before[last.h] \notin {None, last.shown}) => (~last.ok /\ last.err = "changed" /\ pins = last.before)
 FirstUsePins == (Called /\ last.ok /\ last.before[last.h] = None) => pins[last.h] = last.shown
-FailureKeepsPins == (Called /\ ~last.ok) => pins = last.before
+FailureKeepsPins == (Called /\ ~last.ok /\ last.err \in {"changed", "unreadable"}) => pins = last.before
+\* the pin is written when the certificate is verified, not when (and if) a response arrives
+FirstContactPins == (Called /\ last.err = "dropped" /\ last.before[last.h] = None) => pins[last.h] = last.shown
 Isolation == Called => \A h \in HP : h # last.h => pins[h] = last.before[h]
 UnreadableRefused == (Called /\ last.shown = Bad) => ~last.ok
+\* C11 over histories: a host whose certificate failed verification has received nothing
+\* (whatever the call returned: a host presenting a certificate that is not acceptable never receives request bytes)
+Unacceptable == last.shown = Bad \/ last.before[last.h] \notin {None, last.shown}
+NothingToUnverified == (Called /\ Unacceptable) => last.h \notin last.got
 =============================================================================
